@@ -25,7 +25,7 @@ Spec == Init /\ [][Next]_vars
 FirstMatchDecides == \A c \in 1..NChecks : cks[c].phase = "done" => cks[c].answers = <<Decision(Rules, cks[c].truth)>>
 AnswersOnce == \A c \in 1..NChecks : Len(cks[c].answers) <= 1 /\ (cks[c].phase # "done" => cks[c].answers = <<>>)
 \* I: a leaf occurrence is consulted at most once for its value (no re-evaluation on resume), breadcrumbs only while paused
-NoReevaluation == \A c \in 1..NChecks : \A n \in cks[c].w.served :
+NoReevaluation == \A c \in 1..NChecks : \A n \in DOMAIN Cfg.base :
                      Cardinality({k \in 1..Len(cks[c].w.log) : cks[c].w.log[k] = Ev("eval", n)}) <= (IF n \in cks[c].w.answered /\ cks[c].mode[Cfg.base[n]] = "a" THEN 2 ELSE 1)
 CrumbsOnlyWhilePaused == \A c \in 1..NChecks : (cks[c].phase = "paused") = (cks[c].path # <<>>)
 Terminal == \A c \in 1..NChecks : cks[c].phase = "done"
